@@ -141,6 +141,7 @@ static const Violation *relevant(const std::string &prop, const RunResult &r) {
     for (auto &v : r.v) {
         if (v.prop == prop) return &v;
         if (prop == "C18") return &v; // every oracle that is switched on in the C18 configuration is a C18 clause
+        if (prop == "C02" && v.prop == "C08" && (v.clause == "chunk-relation" || v.clause == "response-exceeds-mtu" || v.clause == "response-seq")) return &v; // structure of a single response
         if (prop == "C01" && v.prop == "C01") return &v;
     }
     return nullptr;
@@ -800,7 +801,7 @@ int main(int argc, char **argv) {
         uint64_t idx = kv.second.first;
         std::string cls = cls0;
         std::string vprop = cls.substr(0, cls.find(':'));
-        bool counts = vprop == prop || prop == "C18";
+        bool counts = vprop == prop || prop == "C18" || (prop == "C02" && (cls == "C08:chunk-relation" || cls == "C08:response-exceeds-mtu" || cls == "C08:response-seq"));
         if (!counts) { printf("NOTE: run %llu hit %s (%s); it belongs to another property's check and is not counted here\n", (unsigned long long)idx, cls.c_str(), kv.second.second.c_str()); continue; }
         Plan p = plan_for(prop, vseed, idx, tier);
         ChildOut first = run_in_child(p, prop);
